@@ -148,18 +148,45 @@ def measure (ord : List String) (s : ASt) : Nat :=
 
 /-! ### what the driver evaluates on observed logs -/
 
-/-- Is `obs` an order-preserving merge of `streams`? Frontier search over the vectors of consumed prefixes. -/
-def mergeStep {α : Type} [BEq α] (streams : List (List α)) (x : α) (front : List (List Nat)) : List (List Nat) :=
-  let next := front.flatMap (fun v =>
-    (List.range streams.length).filterMap (fun j =>
-      match (streams.getD j []).drop (v.getD j 0) with
-      | y :: _ => if y == x then some (v.set j (v.getD j 0 + 1)) else none
-      | [] => none))
-  next.eraseDups
+/-- lexicographic order on the remaining parts of streams (only used to put a search state in canonical form) -/
+def lexLt : List Int → List Int → Bool
+  | [], [] => false
+  | [], _ :: _ => true
+  | _ :: _, [] => false
+  | a :: as, b :: bs => a < b || (a == b && lexLt as bs)
 
-def mergeOK {α : Type} [BEq α] (obs : List α) (streams : List (List α)) : Bool :=
-  let final := obs.foldl (fun front x => mergeStep streams x front) [streams.map (fun _ => 0)]
-  final.any (fun v => (List.range streams.length).all (fun j => v.getD j 0 == (streams.getD j []).length))
+def insertSorted (x : List Int) : List (List Int) → List (List Int)
+  | [] => [x]
+  | y :: ys => if lexLt y x then y :: insertSorted x ys else x :: y :: ys
+
+/-- a search state: the still unconsumed remainders of the streams, as a SORTED list (a multiset: streams with the
+same remainder are interchangeable, so the states reached by permuting them are one state) -/
+abbrev MState := List (List Int)
+
+/-- all ways to take `x` from the head of one remainder; remainders equal to an earlier one are skipped -/
+def takeHead (x : Int) : (before : List (List Int)) → (rest : List (List Int)) → List MState
+  | _, [] => []
+  | before, r :: rest =>
+    let here :=
+      match r with
+      | y :: tl =>
+        if y == x && !(before.head? == some r) then
+          -- `before` is kept reversed; equal remainders are adjacent in a sorted state
+          [insertSorted tl (before.reverse ++ rest)]
+        else []
+      | [] => []
+    here ++ takeHead x (r :: before) rest
+
+def mergeStep (x : Int) (front : List MState) : List MState :=
+  (front.flatMap (fun st => takeHead x [] st)).eraseDups
+
+/-- Is `obs` an order-preserving merge of `streams`? Frontier search over the multisets of unconsumed remainders
+(exact: every assignment of the observed events to the streams is explored up to interchanging streams with equal
+remainders). -/
+def mergeOK (obs : List Int) (streams : List (List Int)) : Bool :=
+  let start : MState := streams.foldl (fun acc s => insertSorted s acc) []
+  let final := obs.foldl (fun front x => mergeStep x front) [start]
+  final.any (fun st => st.all (·.isEmpty))
 
 /-- three-valued evaluation of a match expression when the previous level is not known (`none` = depends on it) -/
 def eval3 (e : SEv) : M → Option Bool
